@@ -43,7 +43,8 @@ opts (all optional):
     "list_style":  "listtext" (default) | "pntext"
     "field_style": "word" (default, instruction wrapped in a group as Word writes) | "flat" ({\\*\\fldinst HYPERLINK "u"})
     "pict_wrap":   "none" (default)  | "shppict" -> {\\*\\shppict{\\pict ..}} as Word writes
-    "hex_wrap":    0 (default: picture hex on one line) | n -> a line break after every n bytes (Word: 64)
+    "hex_wrap":    0 (default: picture hex on one line) | n -> a line break (eol, or LF if eol is "") after every
+                   n bytes of picture data (Word: 64)
     "eol":         "" (default) | "\\n" | "\\r\\n"  -> written after every \\par, \\cell, \\row, \\sect and header group
     "row_props":   "before" (default) -> \\trowd.. once, in front of the cells | "both" -> repeated as {\\trowd..\\row}
                    at the end of the row (what Word 2000+ writes)
